@@ -23,6 +23,8 @@ Definition OTinv (L : Z) (t : otable) : Prop :=
 Definition OPresent (L : Z) (t : otable) (k : Z) : Prop :=
   exists b, 0 <= b < 2 ^ L /\ Gen_One.IsFull (ost (t b)) = true /\ oky (t b) = k.
 
+Definition OAt (L : Z) (t : otable) (k b : Z) : Prop := 0 <= b < 2 ^ L /\ Gen_One.IsFull (ost (t b)) = true /\ oky (t b) = k.
+
 (* what pvFind + BucketOne::Find examine *)
 Definition OFound (L : Z) (t : otable) (k : Z) : Prop :=
   exists p, 0 <= p <= Gen_Base.GetMaxProbe L /\ p < 2 ^ L /\
@@ -85,7 +87,9 @@ Lemma oadd_nogrow_spec L t code key : 0 <= L <= 63 -> OTinv L t ->
   Gen_One.pvGetHashState code = Gen_One.pvGetHashState (hash key) ->
   match oadd_nogrow t L code key with
   | Ok t' => OTinv L t' /\ OPresent L t' key /\ (forall k, OPresent L t k -> OPresent L t' k) /\
-             (forall j, Gen_One.WasFull (ost (t j)) = true -> Gen_One.WasFull (ost (t' j)) = true)
+             (forall j, Gen_One.WasFull (ost (t j)) = true -> Gen_One.WasFull (ost (t' j)) = true) /\
+             (exists b0, Gen_One.IsFull (ost (t b0)) = false /\
+                forall k b, OAt L t' k b <-> (OAt L t k b \/ (k = key /\ b = b0 /\ 0 <= b0 < 2 ^ L)))
   | Exn => True
   | _ => False
   end.
@@ -108,7 +112,7 @@ Proof.
   assert (Fw : forall j, Gen_One.WasFull (ost (t j)) = true -> Gen_One.WasFull (ost (t' j)) = true).
   { intros j Hj. destruct (Z.eq_dec j idx) as [->|Hne]; [rewrite Fi; exact Hsw|rewrite Ft by assumption; exact Hj]. }
   assert (Hidxr : 0 <= idx < 2 ^ L) by (rewrite Hidx; apply Z.mod_pos_bound; lia).
-  split; [|split; [|split; [|exact Fw]]].
+  split; [|split; [|split; [|split; [exact Fw|]]]].
   - intros b Hb Hf. destruct (Z.eq_dec b idx) as [->|Hne].
     + rewrite Fi in *. cbn [ost oky]. split; [reflexivity|]. exists p. fold start. split; [lia|]. split; [assumption|].
       intros q Hq. apply Fw, wasfull_of_isfull, Hpath. lia.
@@ -117,6 +121,11 @@ Proof.
   - exists idx. rewrite Fi. cbn [ost oky]. split; [assumption|]. split; [exact Hsf|reflexivity].
   - intros k (b & Hb & Hf & Hk). exists b. destruct (Z.eq_dec b idx) as [->|Hne]; [congruence|].
     rewrite Ft by assumption. split; [assumption|split; assumption].
+  - exists idx. split; [exact Hfull|]. intros k b. unfold OAt. destruct (Z.eq_dec b idx) as [->|Hne].
+    + rewrite Fi. cbn [ost oky]. split.
+      * intros (Hb & _ & Hk). right. split; [symmetry; exact Hk|split; [reflexivity|exact Hb]].
+      * intros [(_ & Hf & _)|(-> & _ & Hb)]; [congruence|]. split; [exact Hb|split; [exact Hsf|reflexivity]].
+    + rewrite Ft by assumption. split; [intros G; left; exact G|intros [G|(_ & Hb & _)]; [exact G|contradiction]].
 Qed.
 
 Lemma one_getpart h full it : 0 <= h < 2 ^ 64 -> Gen_One.GetHashCodePart (Gen_One.pvGetHashState h) full it it = Ok (h mod 2 ^ 63).
@@ -132,7 +141,10 @@ Lemma orelocate_item_spec L newL told tnew i : 0 <= L -> L < newL <= 63 -> OTinv
   | Ok (told', tnew') =>
       OTinv L told' /\ OTinv newL tnew' /\ Gen_One.IsFull (ost (told' i)) = false /\ (forall j, j <> i -> told' j = told j) /\
       (forall k, OPresent L told k -> OPresent L told' k \/ OPresent newL tnew' k) /\
-      (forall k, OPresent newL tnew k -> OPresent newL tnew' k)
+      (forall k, OPresent newL tnew k -> OPresent newL tnew' k) /\
+      (OAt L told (oky (told i)) i /\ (forall k b, OAt L told' k b <-> (OAt L told k b /\ b <> i)) /\
+       exists b0, Gen_One.IsFull (ost (tnew b0)) = false /\
+         forall k b, OAt newL tnew' k b <-> (OAt newL tnew k b \/ (k = oky (told i) /\ b = b0 /\ 0 <= b0 < 2 ^ newL)))
   | Exn => True
   | _ => False
   end.
@@ -144,20 +156,24 @@ Proof.
   pose proof (oadd_nogrow_spec newL tnew (hash key mod 2 ^ 63) key ltac:(lia) Hnew) as Hadd.
   specialize (Hadd ltac:(unfold ohome; apply Hsi; lia) Hst).
   destruct (oadd_nogrow tnew newL (hash key mod 2 ^ 63) key) as [tnew'| | |]; try exact Hadd.
-  destruct Hadd as (Hnew' & Hpres & Hmono & _).
+  destruct Hadd as (Hnew' & Hpres & Hmono & _ & Hpos).
   unfold oremove_at, Gen_One.Remove. rewrite Z.eqb_refl. rewrite Hf.
   set (told' := otupd told i (mkO 2 (oky (told i)))).
   assert (Ft : forall j, j <> i -> told' j = told j) by (intros j Hj; unfold told', otupd; destruct (Z.eqb_spec j i); [contradiction|reflexivity]).
   assert (Fi : told' i = mkO 2 (oky (told i))) by (unfold told', otupd; rewrite Z.eqb_refl; reflexivity).
   assert (Fw : forall j, Gen_One.WasFull (ost (told j)) = true -> Gen_One.WasFull (ost (told' j)) = true).
   { intros j Hj. destruct (Z.eq_dec j i) as [->|Hne]; [rewrite Fi; reflexivity|rewrite Ft by assumption; exact Hj]. }
-  split; [|split; [exact Hnew'|split; [rewrite Fi; reflexivity|split; [exact Ft|split; [|exact Hmono]]]]].
+  split; [|split; [exact Hnew'|split; [rewrite Fi; reflexivity|split; [exact Ft|split; [|split; [exact Hmono|]]]]]].
   - intros b Hb Hfb. destruct (Z.eq_dec b i) as [->|Hne]; [rewrite Fi in Hfb; discriminate|].
     rewrite Ft in * by assumption. destruct (Hold b Hb Hfb) as (Hs1 & p0 & Hp0 & Hb0 & Hw0).
     split; [assumption|]. exists p0. split; [assumption|]. split; [assumption|]. intros q Hq. apply Fw, Hw0. assumption.
   - intros k (b & Hb & Hfb & Hk). destruct (Z.eq_dec b i) as [->|Hne].
     + right. fold key in Hk. rewrite <- Hk. exact Hpres.
     + left. exists b. rewrite Ft by assumption. split; [assumption|split; assumption].
+  - split; [unfold OAt; split; [exact Hi|split; [exact Hf|reflexivity]]|]. split; [|exact Hpos].
+    intros k b. unfold OAt. destruct (Z.eq_dec b i) as [->|Hne].
+    + rewrite Fi. cbn [ost]. split; [intros (_ & G & _); discriminate|intros [_ G]; contradiction].
+    + rewrite Ft by assumption. split; [intros G; split; [exact G|exact Hne]|intros [G _]; exact G].
 Qed.
 
 Definition omig_post (L newL : Z) (told tnew told' tnew' : otable) : Prop :=
@@ -181,7 +197,7 @@ Proof.
   - cbn [omigrate_from]. destruct (Gen_One.IsFull (ost (told i))) eqn:Hf.
     + pose proof (orelocate_item_spec L newL told tnew i HL HnL Hold Hnew ltac:(lia) Hf) as Hstep.
       destruct (orelocate_item hash told tnew newL i) as [[told1 tnew1]| | |]; try exact Hstep.
-      destruct Hstep as (Ho1 & Hn1 & Hc1 & Hfr1 & Hp1 & Hm1).
+      destruct Hstep as (Ho1 & Hn1 & Hc1 & Hfr1 & Hp1 & Hm1 & _).
       assert (Hz1 : forall j, 0 <= j < i + 1 -> Gen_One.IsFull (ost (told1 j)) = false).
       { intros j Hj. destruct (Z.eq_dec j i) as [->|]; [assumption|]. rewrite Hfr1 by assumption. apply Hz. lia. }
       specialize (IH told1 tnew1 (i + 1) ltac:(lia) ltac:(lia) Ho1 Hn1 Hz1).
@@ -245,5 +261,59 @@ Proof.
     destruct IH as (Ht2 & Hm2 & Hin). split; [assumption|]. split.
     + intros k0 Hk0. apply Hm2, Hm1. assumption.
     + intros k0 [<-|Hr]; [apply Hm2; assumption|apply Hin; assumption].
+Qed.
+
+(* ---- round 5: every key is in EXACTLY one generation (BucketOne); the loop may stop after any number n of buckets ---- *)
+Definition OUniq (L : Z) (t : otable) : Prop := forall k b b', OAt L t k b -> OAt L t k b' -> b = b'.
+Definition OSep (L newL : Z) (told tnew : otable) : Prop :=
+  OUniq L told /\ OUniq newL tnew /\ forall k, ~ (OPresent L told k /\ OPresent newL tnew k).
+Definition OGood (L newL : Z) (told tnew : otable) : Prop := OTinv L told /\ OTinv newL tnew /\ OSep L newL told tnew.
+
+Lemma orelocate_good L newL told tnew i told' tnew' : 0 <= L -> L < newL <= 63 -> 0 <= i < 2 ^ L ->
+  Gen_One.IsFull (ost (told i)) = true -> OGood L newL told tnew ->
+  orelocate_item hash told tnew newL i = Ok (told', tnew') -> OGood L newL told' tnew'.
+Proof.
+  intros HL HnL Hi Hf (Hold & Hnew & Huo & Hun & Hdis) Heq.
+  pose proof (orelocate_item_spec L newL told tnew i HL HnL Hold Hnew Hi Hf) as Hs. rewrite Heq in Hs.
+  destruct Hs as (Ho' & Hn' & _ & _ & _ & _ & Hat & Hpo & (b0 & Hfree & Hpn)).
+  set (key := oky (told i)) in *.
+  split; [exact Ho'|]. split; [exact Hn'|]. split; [|split].
+  - intros k b b' H1 H2. apply Hpo in H1. apply Hpo in H2. apply (Huo k); [apply H1|apply H2].
+  - intros k b b' H1 H2. apply Hpn in H1. apply Hpn in H2.
+    destruct H1 as [H1|(E1 & -> & _)], H2 as [H2|(E2 & -> & _)].
+    + apply (Hun k); assumption.
+    + exfalso. subst k. apply (Hdis key). split; [exists i; exact Hat|exists b; exact H1].
+    + exfalso. subst k. apply (Hdis key). split; [exists i; exact Hat|exists b'; exact H2].
+    + reflexivity.
+  - intros k [(b & H1) (b' & H2)]. apply Hpo in H1. destruct H1 as [H1 Hne]. apply Hpn in H2.
+    destruct H2 as [H2|(E & _)].
+    + apply (Hdis k). split; [exists b; exact H1|exists b'; exact H2].
+    + subst k. apply Hne. apply (Huo key b i H1 Hat).
+Qed.
+
+Theorem omigrate_from_exactly_one L newL : 0 <= L -> L < newL <= 63 ->
+  forall n told tnew i, 0 <= i -> i + Z.of_nat n <= 2 ^ L -> OGood L newL told tnew ->
+  match omigrate_from hash n told tnew newL i with
+  | Ok (told', tnew') =>
+      OGood L newL told' tnew' /\
+      (forall k, OPresent L told k \/ OPresent newL tnew k ->
+         (OPresent L told' k \/ OPresent newL tnew' k) /\ ~ (OPresent L told' k /\ OPresent newL tnew' k))
+  | Exn => True
+  | _ => False
+  end.
+Proof.
+  intros HL HnL. induction n as [|m IH]; intros told tnew i Hi Hn Hg.
+  - cbn [omigrate_from]. split; [exact Hg|]. intros k Hk. split; [exact Hk|]. destruct Hg as (_ & _ & _ & _ & Hd). apply Hd.
+  - cbn [omigrate_from]. destruct (Gen_One.IsFull (ost (told i))) eqn:Hf.
+    + pose proof Hg as (Hold & Hnew & _).
+      pose proof (orelocate_item_spec L newL told tnew i HL HnL Hold Hnew ltac:(lia) Hf) as Hstep.
+      destruct (orelocate_item hash told tnew newL i) as [[told1 tnew1]| | |] eqn:E; try exact Hstep.
+      destruct Hstep as (_ & _ & _ & _ & Hp1 & Hm1 & _).
+      pose proof (orelocate_good L newL told tnew i told1 tnew1 HL HnL ltac:(lia) Hf Hg E) as Hg1.
+      specialize (IH told1 tnew1 (i + 1) ltac:(lia) ltac:(lia) Hg1).
+      destruct (omigrate_from hash m told1 tnew1 newL (i + 1)) as [[told2 tnew2]| | |]; try exact IH.
+      destruct IH as (Hg2 & Hk2). split; [exact Hg2|]. intros k Hk. apply Hk2.
+      destruct Hk as [Hk|Hk]; [apply Hp1; exact Hk|right; apply Hm1; exact Hk].
+    + apply IH; [lia|lia|exact Hg].
 Qed.
 End OneInv.
